@@ -68,9 +68,16 @@ def gen_case(r, index, tier):
     desc = designs.gen_allocation(r, offsets=True, max_cells=(40 if big else 16 if deep else 10), extreme_scales=True)
     n = r.randint(1, 14 if deep else 8)
     ops = []
+    _fresh_t = globals()["_gen_t"]
+
+    def _gen_t(r_):
+        # flows ask again at the threshold they used before (the refine-while-needed loop does nothing else)
+        used = [o["t"] for o in ops if "t" in o]
+        return r_.choice(used) if used and r_.chance(0.4) else _fresh_t(r_)
+
     for _ in range(n):
         k = r.below(100)
-        on = r.below(8)
+        on = r.below(8) if not ops or r.chance(0.6) else ops[-1]["on"] if "on" in ops[-1] else r.below(8)
         if k < 28:
             ops.append({"op": "refine", "on": on, "t": _gen_t(r), "levels": r.weighted([(1, 6), (2, 3), (3, 1)] + ([(4, 2), (5, 1)] if big else []))})
         elif k < 40:
